@@ -132,20 +132,22 @@ def concrete_dict(key, data, variant=0):
     return t.to_dict()
 
 
-def write_trace_file(path, chains, data, samples, clusters=None):
-    """chains: list of (chain_num, [ (key, log_p_one, variant) ... ]) in completion (dict insertion) order."""
+def write_trace_file(path, chains, data, samples, clusters=None, cluster_file=None):
+    """chains: list of (chain_num, [ (key, log_p_one, variant) ... ]) in completion (dict insertion) order.
+    Written by the writer under test, create_main_run_output (with the cluster file when the input was clustered)."""
     from phyclone.process_trace import create_main_run_output
 
     results = {}
     for num, entries in chains:
         trace = []
         for j, (key, lp, variant) in enumerate(entries):
-            trace.append({"iter": j, "time": 0.0, "alpha": 1.0, "log_p_one": lp, "tree": concrete_dict(key, data, variant)})
+            # iteration numbers as a real run records them: the post-burn-in state and iteration 0 both carry iter 0
+            trace.append({"iter": max(0, j - 1), "time": 0.0, "alpha": 1.0, "log_p_one": lp, "tree": concrete_dict(key, data, variant)})
         results[num] = {"data": data, "samples": samples, "trace": trace, "chain_num": num}
-        if clusters is not None:
-            results[num]["clusters"] = clusters
-    with gzip.GzipFile(path, mode="wb") as fh:
-        pickle.dump(results, fh)
+    if clusters is not None and cluster_file is None:
+        cluster_file = path + ".clusters.tsv"
+        clusters.to_csv(cluster_file, sep="\t", index=False)
+    create_main_run_output(cluster_file, path, results)
     return results
 
 
